@@ -135,6 +135,7 @@ Definition dec_pj (j : json) : pj_input :=
      pj_make_join_ok := gb "make_join_ok" j; pj_resp_version := gs "resp_version" j;
      pj_auth_first_is_string := gb "auth_first_is_string" j;
      pj_room_id := gs "room" j; pj_user_id := gs "user" j;
+     pj_origin := gs "origin" j; pj_server := gs "server" j;
      pj_sender_id := gerr_str "sender_id" j; pj_mapping_sign_ok := gb "mapping_sign_ok" j;
      pj_build_ok := gb "build_ok" j; pj_send_join_ok := gb "send_join_ok" j;
      pj_remote := match jget (bs "remote") j with
@@ -212,7 +213,8 @@ Definition run_send_join (args : list bytes) : bytes :=
 Definition run_invite (args : list bytes) : bytes :=
   with_cfg_event args (fun j e => print_event_result (handle_invite marker_sign (dec_iv j e))).
 Definition run_perform_join (args : list bytes) : bytes :=
-  with_cfg args (fun j => print_pj (perform_join (dec_pj j))).
+  with_cfg args (fun j => let i := dec_pj j in
+                          join_bytes nl [print_pj (perform_join i); join_bytes semi (perform_join_requests i)]).
 
 (* restricted-join authoriser alone: [cfg] with version/local/room/sender/rj *)
 Definition print_rj (r : rj_result * list bytes) : bytes :=
